@@ -607,13 +607,19 @@ func execPlain(sc *cScenario) *cResult {
 	resetProcessGlobals()
 	bubble(func(t *testing.T) {
 		res.Start = time.Now()
+		var conf *Config
+		var err error
 		for ci, cn := range sc.Conns {
 			cr := cConnResult{}
 			if err := os.WriteFile(filepath.Join(confDir, goconfig.ConfigFileName), []byte(cn.Cfg.toml(outDir)), 0644); err != nil {
 				panic(err)
 			}
 			cn.OutDir = outDir
-			conf, err := ParseConfig(confDir)
+			// runMain parses config.toml once and hands the same *Config to every handleConn: a reconnect
+			// with an unchanged configuration therefore re-uses the object (a changed file means a restart)
+			if ci == 0 || cn.Cfg.toml(outDir) != sc.Conns[ci-1].Cfg.toml(outDir) {
+				conf, err = ParseConfig(confDir)
+			}
 			if err != nil {
 				res.ParseErr = err
 				return
@@ -1148,7 +1154,10 @@ func checkE2E(r *verifsim.Run, sc *cScenario, res *cResult) {
 					sig = "accepted-bad"
 				}
 				r.Violate("C13", "C13.classify", sig+":"+c.Model, "connection %d frame id %d (%s, edge %d): zero pixel inside the border=%v but the frame was accepted=%v", ci, e.ID, c.Model, c.Exp.EdgePixels, bad, accepted)
-				return
+				if r.Failed() {
+					return
+				}
+				break // other properties see the consequence in the files
 			}
 			if bad {
 				r.Probe("bad-frame-" + c.Model)
